@@ -20,8 +20,11 @@ package coroutine
 
 // A wrapped coroutine is resumed on behalf of the thread that CALLS the wrapper
 // (the first parameter of the wrapper function), not the thread that created it.
+// (C11) An error raised in the coroutine reaches the caller of the wrapper as it
+// left the coroutine - same value, same 'already handled' mark, same position:
+// the wrapper makes no new error out of it.
 //@ func wrap$1
-//@   prop C09
+//@   prop C09 C11
 //@   arith int
 //@   norte
 //@   nocover
@@ -29,3 +32,10 @@ package coroutine
 //@   modifies everything()
 //@   exits any
 //@   assert_before_call Resume: $caller == param0 && $t == *co
+//@   never_call NewError
+//@   never_call NewErrorS
+//@   never_call NewErrorE
+//@   never_call NewErrorF
+//@   never_call Errorf
+//@   never_call New
+
